@@ -146,6 +146,10 @@ KEYWORDS_NOT_PATH = {"if", "match", "loop", "while", "for", "return", "break", "
                      "in", "as", "ref", "mut", "dyn"}
 
 
+# (file, fn name) -> declared parameter types (None for self), filled while parsing
+FN_PARAM_TYPES = {}
+
+
 class Parser:
     def __init__(self, toks, fname="?"):
         self.t = toks
@@ -1164,6 +1168,8 @@ class Parser:
             self._angle_rest()
         self.expect("(")
         params = []
+        ptypes = []
+        FN_PARAM_TYPES[(self.fname, name)] = ptypes
         while not self.at(")"):
             self.skip_attrs()
             if self.at("&") and (self.at("self", 1) or self.at("mut", 1) and self.at("self", 2) or self.peek(1)[0] == "lifetime"):
@@ -1173,16 +1179,18 @@ class Parser:
                 self.eat("mut")
                 self.expect("self")
                 params.append(("p_bind", "self", None))
+                ptypes.append(None)
             elif self.at("self") or (self.at("mut") and self.at("self", 1)):
                 self.eat("mut")
                 self.next()
                 if self.eat(":"):
                     self.parse_type()
                 params.append(("p_bind", "self", None))
+                ptypes.append(None)
             else:
                 p = self._pattern_one()
                 self.expect(":")
-                self.parse_type()
+                ptypes.append(self.parse_type())
                 params.append(p)
             if not self.eat(","):
                 break
